@@ -81,7 +81,7 @@ func c07Sig(kind string, c c07Case) string {
 
 func TestVerifC07Request(t *testing.T) {
 	L := ev.Begin("C07", "c07-request", "exploration",
-		"full product method x path (incl. %2F, %20, //, prefix-sharing) x query x header set (custom, duplicate, lower-case, auth/cookie) x body (none, 1B, 70kB, chunked) x strip x prepend x host option x target query, each parsed with net/http's request parser and served by the real HTTPProxy.ServeHTTP + ReverseProxy to a real upstream that records method, request-target, Host, headers and body; oracle = rewrite rules of the statement applied to the escaped path. non-trivial = case with a rewrite option or encoded path")
+		"full product method x path (incl. %2F, %20, //, prefix-sharing) x query x header set (custom, duplicate, lower-case, auth/cookie) x body (none, 1B, 70kB, chunked) x strip x prepend x host option x target query x client Host spelling (plain, :80, :8080, mixed case), each parsed with net/http's request parser and served by the real HTTPProxy.ServeHTTP + ReverseProxy to a real upstream that records method, request-target, Host, headers and body; oracle = rewrite rules of the statement applied to the escaped path. non-trivial = case with a rewrite option or encoded path")
 	methods := []string{"GET", "POST", "HEAD"}
 	if ev.Thorough() {
 		methods = []string{"GET", "HEAD", "POST", "PUT", "DELETE", "OPTIONS"}
@@ -143,7 +143,9 @@ func TestVerifC07Request(t *testing.T) {
 			target += "?" + c.query
 		}
 		body, chunked := c07Body(c.body)
-		raw := rawRequest(c.method, target, "client.example", c07Hdrs[c.hdr], body, chunked)
+		// the Host header is the client's: with an explicit (default or other) port and in any letter case
+		clientHost := []string{"client.example", "client.example:80", "client.example:8080", "Client.Example"}[i%4]
+		raw := rawRequest(c.method, target, clientHost, c07Hdrs[c.hdr], body, chunked)
 		L.Case()
 		d := map[string]interface{}{"request": c.method + " " + target, "route": line, "headers": c07Hdrs[c.hdr], "body_kind": c.body}
 		var rec *httptest.ResponseRecorder
@@ -208,7 +210,7 @@ func TestVerifC07Request(t *testing.T) {
 				L.Violation(c07Sig("query-not-merged-as-specified", c), d)
 			}
 		}
-		wantHost := "client.example"
+		wantHost := clientHost
 		switch c.host {
 		case "dst":
 			wantHost = r.upAddr
@@ -367,15 +369,26 @@ func TestVerifC07Response(t *testing.T) {
 // ResponseRecorder cannot represent
 func TestVerifC07Wire(t *testing.T) {
 	L := ev.Begin("C07", "c07-wire", "exploration",
-		"real listener in front of the real HTTPProxy and a real upstream: final status {200,201,204,404,422,500} x interim response {none, 103 Early Hints, two 103s} x method {GET, POST with 2 kB body and Expect: 100-continue, POST chunked} x response body {empty, 5 kB}; the Go http client on a real connection must see the upstream's final status, headers and body. non-trivial = case with an interim response or an Expect header")
+		"real listener in front of the real HTTPProxy and a real upstream: final status {200,201,204,404,422,500} x interim response {none, 103 Early Hints, two 103s} x method {GET, POST with 2 kB body and Expect: 100-continue, POST chunked} x response body {empty, 5 kB}; the Go http client on a real connection must see the upstream's final status, headers and body; plus an upstream that dies after {0, 1, 4001, 40000} body bytes (chunked / with Content-Length): the client must see the failure, never a complete-looking response. non-trivial = case with an interim response or an Expect header")
 	r := newRig()
 	defer r.close()
 	var interim int
 	var final int
 	var body []byte
 	var got []byte
+	abortAfter := -1 // >= 0: the upstream dies after that many body bytes
+	abortCL := false
 	r.up.Config.Handler = http.HandlerFunc(func(w http.ResponseWriter, req *http.Request) {
 		got, _ = io.ReadAll(req.Body)
+		if abortAfter >= 0 {
+			if abortCL {
+				w.Header().Set("Content-Length", fmt.Sprint(len(body)))
+			}
+			w.WriteHeader(200)
+			w.Write(body[:abortAfter])
+			w.(http.Flusher).Flush()
+			panic(http.ErrAbortHandler)
+		}
 		for i := 0; i < interim; i++ {
 			w.Header().Set("Link", "</style.css>; rel=preload")
 			w.WriteHeader(http.StatusEarlyHints)
@@ -449,6 +462,35 @@ func TestVerifC07Wire(t *testing.T) {
 			}
 		}
 	}
+	// an upstream that dies in the middle of its body: the client must not be handed a response that looks complete
+	for _, n := range []int{0, 1, 4001, 40000} {
+		for _, cl0 := range []bool{false, true} {
+			interim, final, body, got = 0, 200, big(50000), nil
+			abortAfter, abortCL = n, cl0
+			req, _ := http.NewRequest("GET", front.URL+"/x", nil)
+			resp, err := cl.Do(req)
+			L.Case()
+			L.NontrivialKey(fmt.Sprint("abort", n, cl0))
+			d := map[string]interface{}{"upstream": fmt.Sprintf("200, %d of 50000 body bytes, then the connection dies", n), "content_length_announced": cl0}
+			var rerr error
+			var rb []byte
+			if err == nil {
+				rb, rerr = io.ReadAll(resp.Body)
+				resp.Body.Close()
+				d["client_saw_status"], d["client_got_bytes"] = resp.StatusCode, len(rb)
+			}
+			d["client_error"] = fmt.Sprint(err, rerr)
+			L.Outcome(fmt.Sprint("abort", err != nil || rerr != nil))
+			L.Sample(d)
+			if err == nil && rerr == nil && resp.StatusCode == 200 {
+				L.Violation("truncated-upstream-response-presented-as-complete", d)
+			}
+			if !bytes.HasPrefix(body, rb) {
+				L.Violation("response-body-changed/aborted-upstream", d)
+			}
+		}
+	}
+	abortAfter = -1
 	L.End(true)
 }
 
